@@ -774,6 +774,10 @@ func vcExec(t *testing.T, mode string, ops []string, o *vu.Out) {
 		// wind down: cancel everything, close every connection
 		for _, r := range c.reqs {
 			r.cancel()
+			if !r.ended {
+				r.ended = true
+				close(r.end)
+			}
 		}
 		synctest.Wait()
 		for _, r := range c.reqs {
